@@ -933,6 +933,9 @@ def NoDigitAhead (b : Nat) (rest : List Nat) : Prop :=
   | [] => True
   | c :: _ => (digitOf b b c).isSome = false
 
+instance (b : Nat) (rest : List Nat) : Decidable (NoDigitAhead b rest) := by
+  unfold NoDigitAhead; cases rest <;> infer_instance
+
 theorem takeWhile_noDigit {b : Nat} {rest : List Nat} (h : NoDigitAhead b rest) :
     rest.takeWhile (fun c => (digitOf b b c).isSome) = [] := by
   cases rest with
